@@ -287,12 +287,17 @@ struct Ctx<'a> {
     tally: Tally,
     dig: std::collections::hash_map::DefaultHasher,
     c11: bool,
+    dump: bool,
 }
 const NGROUPS: usize = 9;
 const GROUP_NAMES: [&str; NGROUPS] = ["operators", "int-operators", "unary", "rotate", "shift", "sum-product", "from_num", "to_num", "parse"];
 
 impl<'a> Ctx<'a> {
     fn judge(&mut self, group: usize, case: impl FnOnce() -> String, got: Out, exp: Option<Out>, kf: Option<&'static str>, what: &str) {
+        if self.dump {
+            println!("{}\t{}", case(), got);
+            return;
+        }
         self.rep.transitions += 1;
         self.tally.counts[group][got.class()] += 1;
         if self.c11 {
@@ -392,9 +397,9 @@ impl<'a> Ctx<'a> {
     }
 }
 
-fn explore_layout(e: &Entry, tier: Tier, c11: bool) -> (Report, u64) {
+fn explore_layout(e: &Entry, tier: Tier, c11: bool, dump: bool) -> (Report, u64) {
     let l = e.l;
-    let mut cx = Ctx { e, rep: Report::new("wrap", "", tier.name()), tally: Tally::new(NGROUPS), dig: Default::default(), c11 };
+    let mut cx = Ctx { e, rep: Report::new("wrap", "", tier.name()), tally: Tally::new(NGROUPS), dig: Default::default(), c11, dump };
     let name = l.name();
     if l.w == 8 {
         // breadth-first search of the state graph from 0; second operands: every value
@@ -437,6 +442,9 @@ fn explore_layout(e: &Entry, tier: Tier, c11: bool) -> (Report, u64) {
                             cx.rep.transitions += 1;
                             if c11 {
                                 got.feed(&mut cx.dig);
+                            }
+                            if dump {
+                                println!("wrap {} bin {} v.v {:#x} {:#x}\t{}", name, BIN[op], x, b, got);
                             }
                             if in_kf {
                                 ok = false; // known finding on this step: the chains legitimately diverge
@@ -540,7 +548,7 @@ fn cmd_run(args: &Args) {
     let t0 = std::time::Instant::now();
     let tab: Vec<Entry> = table().into_iter().filter(|e| only.as_ref().map_or(true, |o| *o == e.l.name() || *o == e.l.family())).collect();
     let c11 = prop == "C11";
-    let results = run_jobs(&tab, |e| explore_layout(e, tier, c11));
+    let results = run_jobs(&tab, |e| explore_layout(e, tier, c11, false));
     let mut rep = Report::new("wrap", &prop, tier.name());
     for (e, (r, d)) in tab.iter().zip(results) {
         if c11 {
@@ -648,7 +656,11 @@ fn main() {
         "run" => cmd_run(&args),
         "replay" => std::process::exit(cmd_replay(&args.v[1..])),
         "dump" => {
-            println!("(wrap blocks are per layout; rerun ./check C18 on the layout to localise)");
+            let l = Layout::parse(&args.v[1]).unwrap();
+            let tier = Tier::parse(&args.get("tier").unwrap_or("quick".into()));
+            let tab = table();
+            let e = tab.iter().find(|e| e.l == l).unwrap();
+            explore_layout(e, tier, true, true);
         }
         _ => {
             eprintln!("usage: wrap run --prop C18|C11 --tier T --out FILE [--only L] | replay L KIND ...");
